@@ -27,6 +27,38 @@ def branches(node):
     return [a for a in ancestors(node) if isinstance(a, (ast.If, ast.While, ast.For, ast.IfExp, ast.ExceptHandler))]
 
 
+def r16h(ctx):
+    m = ctx.model
+    ctx.rule("R16h", "the max-heap is a faithful mirror: MaxFibonacciHeap stores every key wrapped in ReversedComparator (its "
+                     "constructor wraps the key function), so every inherited method that takes a raw key and compares it with "
+                     "stored keys must be overridden to wrap that key the same way")
+    base, mx = m.need_class("FibonacciHeap"), m.need_class("MaxFibonacciHeap")
+    init = m.method(mx, "__init__")
+    wraps = init is not None and init.cls == mx and "ReversedComparator(" in ast.unparse(init.node)
+    if not wraps:
+        ctx.inconclusive("R16h", "graphtage/fibonacci.py", "MaxFibonacciHeap.__init__", init.node if init else None, "wrapping",
+                         "MaxFibonacciHeap no longer wraps keys in ReversedComparator in its constructor")
+        return
+    n = 0
+    for name, (kind, f) in sorted(m.attrs[base].items()):
+        if kind != "def" or name.startswith("__"):
+            continue
+        keyparams = [a.arg for a in f.node.args.args if a.annotation is not None and ast.unparse(a.annotation) == "Key"]
+        if not keyparams:
+            continue
+        n += 1
+        own = m.attrs[mx].get(name)
+        ok = bool(own and own[0] == "def" and all(f"ReversedComparator({p})" in ast.unparse(own[1].node) for p in keyparams))
+        if ok:
+            ctx.proved("R16h", f.file, f"MaxFibonacciHeap.{name}", own[1].node, f"{name} wraps its key", f"{name}({', '.join(keyparams)}) is overridden and wraps the key")
+        else:
+            ctx.violation("R16h", f.file, f"FibonacciHeap.{name}", f.node, f"{name} wraps its key",
+                          f"FibonacciHeap.{name} compares the raw key parameter `{keyparams[0]}` with stored keys; in MaxFibonacciHeap the "
+                          f"stored keys are ReversedComparator wrappers and {name} is {'not overridden' if not own else 'overridden without wrapping'}: "
+                          f"`MaxFibonacciHeap().{name}(node, 10)` raises AttributeError: 'int' object has no attribute 'key'")
+    ctx.floor("R16h", n, 1, "base-heap methods taking a raw key")
+
+
 def run(ctx):
     m = ctx.model
     q = m.need_class("FibonacciHeap")
@@ -243,5 +275,6 @@ def run(ctx):
         ctx.proved("R16g", fl, "HeapNode.__lt__", lt.node, "node order", "(deleted and not other.deleted) or key < other.key")
     else:
         ctx.violation("R16g", fl, "HeapNode.__lt__", lt.node, "node order", f"HeapNode.__lt__ is `{norm(lt.node.body[-1])}`")
+    r16h(ctx)
     ctx.assume("heap order after arbitrary operation histories (the heart of the property) is a runtime-shape property of "
                "a pointer structure; no shape analysis in reach proves it - only the necessary conditions above are decided")
